@@ -1205,7 +1205,7 @@ func extra4C14(c *Ctx) {
 
 func extra4C15(c *Ctx) {
 	rule := "C15-R8"
-	c.Rule(rule, "closed inventory of shared containers: the package-level variables of package server that can hold data shared between requests (maps, sync.Map, slices, pointers, channels, structs containing them) are the audited ones — the two transfer managers (fields of their values: R1b), intermediateBlobs (never inserted into), the digest pattern (a *regexp.Regexp is safe for concurrent use) and the test dial hook; a new one — a cache of decoded model metadata, say — hands the same maps to concurrently running handlers, which edit them (GetModelInfo deletes keys from the KV it got)")
+	c.Rule(rule, "closed inventory of shared containers: the package-level variables of package server that can hold data shared between requests (maps, sync.Map, slices, pointers, channels, structs containing them) are the audited ones — the two transfer managers (fields of their values: R1b), intermediateBlobs (never inserted into), the digest pattern and the test dial hook (a compiled *regexp.Regexp that is set only by its initialiser is accepted by type: immutable and safe for concurrent use); a new one — a cache of decoded model metadata, say — hands the same maps to concurrently running handlers, which edit them (GetModelInfo deletes keys from the KV it got)")
 	pkg := c.P.Pkgs["server"]
 	audited := map[string]string{
 		"blobDownloadManager":        "sync.Map digest → *blobDownload; field discipline checked by C15-R1b",
@@ -1233,6 +1233,28 @@ func extra4C15(c *Ctx) {
 		}
 		n++
 		why, ok2 := audited[name]
+		if !ok2 && t.String() == "*regexp.Regexp" {
+			// a compiled pattern that is only ever set by its initialiser: immutable and safe for concurrent use
+			assigned := false
+			for _, fn := range c.P.FuncsOf("server") {
+				ast.Inspect(fn.Body, func(m ast.Node) bool {
+					switch x := m.(type) {
+					case *ast.AssignStmt:
+						for _, l := range x.Lhs {
+							if id, isID := ast.Unparen(l).(*ast.Ident); isID && pkg.TypesInfo.Uses[id] == types.Object(v) {
+								assigned = true
+							}
+						}
+					case *ast.UnaryExpr:
+						if id, isID := ast.Unparen(x.X).(*ast.Ident); isID && x.Op == token.AND && pkg.TypesInfo.Uses[id] == types.Object(v) {
+							assigned = true
+						}
+					}
+					return true
+				})
+			}
+			ok2 = !assigned
+		}
 		c.Check(rule, "pkgvar:"+name, c.P.Pos(v.Pos()), ok2, "package-level "+t.String()+" is not in the audited inventory of shared containers"+why[:0])
 	}
 	c.Expect(rule, "package-level containers of package server", n, 5)
@@ -1780,7 +1802,7 @@ func init() {
 
 func extra5C02(c *Ctx) {
 	rule := "C02-R14"
-	c.Rule(rule, "whoever disarms a runner's keep-alive timer settles the runner's future before letting go of it: in the critical section of runnerRef.refMu in which expireTimer is set to nil there is also a look at refCount (a test, ++ or --), a post of the runner on expiredCh, or the unload itself — the reference count may change the moment refMu is released, so a section that only stops the timer (after an idle test made in an earlier section) can leave an idle runner with neither a timer nor an expiry event: it is never shut down and stays in /api/ps")
+	c.Rule(rule, "whoever disarms a runner's keep-alive timer settles the runner's future before letting go of it: in the critical section of runnerRef.refMu in which expireTimer is set to nil (a helper that only stops the timer for a caller holding the lock is judged at its call sites) there is also a look at refCount (a test, ++ or --), a post of the runner on expiredCh, or the unload itself — the reference count may change the moment refMu is released, so a section that only stops the timer (after an idle test made in an earlier section) can leave an idle runner with neither a timer nor an expiry event: it is never shut down and stays in /api/ps")
 	info := c.P.Pkgs["server"].TypesInfo
 	fTimer := c.P.LookupField("server", "runnerRef", "expireTimer")
 	fRef := c.P.LookupField("server", "runnerRef", "refCount")
@@ -1827,17 +1849,66 @@ func extra5C02(c *Ctx) {
 			return false
 		})
 	}
-	n := 0
+	// judge one disarming site: the section runs from the nearest dominating refMu.Lock (or the function
+	// entry when the caller holds the lock) forward to the first Unlock on each path
+	judge := func(g *core.Graph, at core.Loc) (settled, fromEntry bool) {
+		start := g.Entry()
+		fromEntry = true
+		for _, lk := range g.Find(func(m ast.Node) bool { return isRefMuCall(m, "Lock") }) {
+			if g.Dominates(lk.Loc, at) {
+				unlockedBetween := false
+				for _, ul := range g.Find(func(m ast.Node) bool { return isRefMuCall(m, "Unlock") }) {
+					if _, isDefer := ul.Top.(*ast.DeferStmt); isDefer {
+						continue
+					}
+					if g.Dominates(lk.Loc, ul.Loc) && g.Reaches(ul.Loc, at) && !g.Reaches(at, ul.Loc) {
+						unlockedBetween = true
+					}
+				}
+				if !unlockedBetween {
+					start = lk.Loc
+					fromEntry = false
+				}
+			}
+		}
+		g.Walk(start, func(m ast.Node, l core.Loc) bool {
+			if _, isDefer := m.(*ast.DeferStmt); isDefer {
+				return false
+			}
+			if nodeHas(m, func(k ast.Node) bool { return isRefMuCall(k, "Unlock") }) {
+				return true
+			}
+			if settles(m) {
+				settled = true
+			}
+			return false
+		})
+		return settled, fromEntry
+	}
+	var all []*core.Func
 	for _, top := range c.P.FuncsOf("server") {
 		if strings.HasSuffix(c.Pos(top.Body), "_test.go") {
 			continue
 		}
-		for _, f := range append([]*core.Func{top}, top.Lits()...) {
+		all = append(all, top)
+		all = append(all, top.Lits()...)
+	}
+	n := 0
+	// disarmers: functions that only stop the timer for a caller that holds the lock (a helper); their
+	// call sites are judged in place of the assignment, to a depth of three
+	disarmers := map[string]bool{}
+	for depth := 0; depth < 4; depth++ {
+		next := map[string]bool{}
+		for _, f := range all {
 			if f.Key() == "server.runnerRef.unload" {
 				continue // the unload itself
 			}
 			g := c.G(f)
 			for _, cl := range g.Find(func(m ast.Node) bool {
+				if depth > 0 {
+					call, ok := m.(*ast.CallExpr)
+					return ok && disarmers[core.CalleeName(info, call)]
+				}
 				as, ok := m.(*ast.AssignStmt)
 				if !ok || len(as.Lhs) != 1 || len(as.Rhs) != 1 || core.FieldVar(info, as.Lhs[0]) != fTimer {
 					return false
@@ -1845,42 +1916,19 @@ func extra5C02(c *Ctx) {
 				id, isId := ast.Unparen(as.Rhs[0]).(*ast.Ident)
 				return isId && id.Name == "nil"
 			}) {
-				n++
-				// the section: from the nearest dominating refMu.Lock (or the function entry when the
-				// caller holds the lock) forward to the first Unlock on each path
-				start := g.Entry()
-				for _, lk := range g.Find(func(m ast.Node) bool { return isRefMuCall(m, "Lock") }) {
-					if g.Dominates(lk.Loc, cl.Loc) {
-						unlockedBetween := false
-						for _, ul := range g.Find(func(m ast.Node) bool { return isRefMuCall(m, "Unlock") }) {
-							if _, isDefer := ul.Top.(*ast.DeferStmt); isDefer {
-								continue
-							}
-							if g.Dominates(lk.Loc, ul.Loc) && g.Reaches(ul.Loc, cl.Loc) && !g.Reaches(cl.Loc, ul.Loc) {
-								unlockedBetween = true
-							}
-						}
-						if !unlockedBetween {
-							start = lk.Loc
-						}
-					}
+				settled, fromEntry := judge(g, cl.Loc)
+				if !settled && fromEntry && f.Decl != nil && depth < 3 {
+					next[f.Key()] = true
+					continue
 				}
-				settled := false
-				g.Walk(start, func(m ast.Node, l core.Loc) bool {
-					if _, isDefer := m.(*ast.DeferStmt); isDefer {
-						return false
-					}
-					if nodeHas(m, func(k ast.Node) bool { return isRefMuCall(k, "Unlock") }) {
-						return true
-					}
-					if settles(m) {
-						settled = true
-					}
-					return false
-				})
+				n++
 				c.Check(rule, f.Key()+" timer disarmed#"+itoa(n)+" and the runner's future settled in one section", c.Pos(cl.Node), settled, "between taking refMu and releasing it this section stops the timer without looking at refCount, posting an expiry or unloading")
 			}
 		}
+		if len(next) == 0 {
+			break
+		}
+		disarmers = next
 	}
 	c.Expect(rule, "sites that disarm the keep-alive timer (outside unload)", n, 5)
 }
@@ -2023,7 +2071,7 @@ func init() {
 
 func extra5C05(c *Ctx) {
 	rule := "C05-R12"
-	c.Rule(rule, "a skipped string is skipped whole: wherever fs/ggml reads into a buffer slice whose length is min(<remaining>, <buffer capacity>) — a declared length clamped to the scratch buffer — the read sits in a loop that continues while the remaining count is positive and subtracts what the read returned (or the function hands the whole count to io.CopyN); reading one clamped piece leaves the rest of a long element of an uncollected array in the stream, and every key after it is decoded from the wrong bytes")
+	c.Rule(rule, "a skipped string is skipped whole: wherever fs/ggml reads into a buffer slice whose length is min(<remaining>, <buffer capacity>) — a declared length clamped to the scratch buffer — the read sits in a loop that subtracts what the read returned and is left without an error only with the count used up (its condition is `rem > 0`; every break or successful return inside it is on an edge with rem <= 0); reading one clamped piece leaves the rest of a long element of an uncollected array in the stream, and every key after it is decoded from the wrong bytes")
 	info := c.P.Pkgs[ggmlPkg].TypesInfo
 	n := 0
 	for _, f := range c.P.FuncsOf(ggmlPkg) {
@@ -2063,14 +2111,63 @@ func extra5C05(c *Ctx) {
 			}
 			n++
 			ok2, why := false, "the clamped read is not inside a loop"
-			if loop, isF := loopAround(f, call).(*ast.ForStmt); isF && loop != nil && loop.Cond != nil {
+			if loop, isF := loopAround(f, call).(*ast.ForStmt); isF && loop != nil {
 				why = "the loop does not run while the remaining count is positive and subtract the bytes read"
-				condOK := false
-				if be, isB := ast.Unparen(loop.Cond).(*ast.BinaryExpr); isB {
-					_, y, op, okO := core.Orient(be, func(e ast.Expr) bool { return isIdentOf(info, e, rem) })
-					if v, isV := core.ConstInt(info, y); okO && isV && ((op == token.GTR && v == 0) || (op == token.GEQ && v == 1) || (op == token.NEQ && v == 0)) {
-						condOK = true
+				g := c.G(f)
+				// the loop is left without an error only when the count is used up: its condition is
+				// `rem > 0`, and every break / successful return inside it is on an edge with rem <= 0
+				condOK := loop.Cond == nil
+				if loop.Cond != nil {
+					if be, isB := ast.Unparen(loop.Cond).(*ast.BinaryExpr); isB {
+						_, y, op, okO := core.Orient(be, func(e ast.Expr) bool { return isIdentOf(info, e, rem) })
+						if v, isV := core.ConstInt(info, y); okO && isV && ((op == token.GTR && v == 0) || (op == token.GEQ && v == 1) || (op == token.NEQ && v == 0)) {
+							condOK = true
+						}
 					}
+				}
+				usedUp := func(loc core.Loc) bool {
+					for _, a := range g.AtomsAt(loc) {
+						be, isB := ast.Unparen(a.Expr).(*ast.BinaryExpr)
+						if !isB {
+							continue
+						}
+						_, y, op, okO := core.Orient(be, func(e ast.Expr) bool { return isIdentOf(info, e, rem) })
+						v, isV := core.ConstInt(info, y)
+						if !okO || !isV {
+							continue
+						}
+						if !a.Val {
+							op = negateCmp(op)
+						}
+						if (op == token.LEQ && v == 0) || (op == token.LSS && v == 1) || (op == token.EQL && v == 0) {
+							return true
+						}
+					}
+					return false
+				}
+				exits := 0
+				if loop.Cond != nil {
+					exits++
+				}
+				for _, ex := range g.Returns() {
+					if ex.Return != nil && within(loop.Body, ex.Return) && g.ReturnKind(ex) != core.RetError {
+						exits++
+						if !usedUp(ex.Loc) {
+							condOK = false
+						}
+					}
+				}
+				for _, h := range g.Find(func(k ast.Node) bool {
+					b, isBr := k.(*ast.BranchStmt)
+					return isBr && b.Tok == token.BREAK && within(loop.Body, b) && loopAround(f, b) == ast.Stmt(loop)
+				}) {
+					exits++
+					if !usedUp(h.Loc) {
+						condOK = false
+					}
+				}
+				if exits == 0 {
+					condOK = false
 				}
 				// rem -= <count the read returned>
 				cnt := core.ResultVar(info, stmtOf(f, call), call, 0)
@@ -2306,7 +2403,20 @@ func ruleOneTableKey(c *Ctx, rule string) {
 		c.Undecided(rule, "anchor:Scheduler.loaded / Model.ModelPath / runnerRef.modelPath", "-", "anchor lost")
 		return
 	}
-	keyOK := func(e ast.Expr) bool {
+	var curBody ast.Node
+	var keyOK func(e ast.Expr) bool
+	keyOK = func(e ast.Expr) bool {
+		// a local that is assigned once, from a ModelPath
+		if id, isID := ast.Unparen(e).(*ast.Ident); isID && curBody != nil {
+			if v, isV := info.ObjectOf(id).(*types.Var); isV && !v.IsField() && v.Parent() != v.Pkg().Scope() {
+				if rhs, idx, n := singleDef(info, curBody, v); n == 1 && idx == -1 && rhs != nil {
+					if _, again := ast.Unparen(rhs).(*ast.Ident); !again {
+						return keyOK(rhs)
+					}
+				}
+			}
+			return false
+		}
 		se, ok := ast.Unparen(e).(*ast.SelectorExpr)
 		if !ok {
 			return false
@@ -2319,6 +2429,7 @@ func ruleOneTableKey(c *Ctx, rule string) {
 		if strings.HasSuffix(c.Pos(f.Body), "_test.go") {
 			continue
 		}
+		curBody = f.Body
 		seq := 0
 		ast.Inspect(f.Body, func(m ast.Node) bool {
 			var key ast.Expr
@@ -2984,13 +3095,37 @@ func extra5C17(c *Ctx) {
 		return
 	}
 	n := 0
+	// named gates: boolean locals of the handler defined (once) from an expression over the tool list; a
+	// condition that consults one stands for its definition
+	gateDef := map[types.Object]ast.Expr{}
+	ast.Inspect(f.Body, func(m ast.Node) bool {
+		as, ok := m.(*ast.AssignStmt)
+		if !ok || len(as.Lhs) != 1 || len(as.Rhs) != 1 || !core.UsesField(info, as.Rhs[0], fTools) {
+			return true
+		}
+		if id, isID := as.Lhs[0].(*ast.Ident); isID {
+			if v, isV := info.ObjectOf(id).(*types.Var); isV && types.Identical(v.Type().Underlying(), types.Typ[types.Bool]) {
+				if _, _, cnt := singleDef(info, f.Body, v); cnt == 1 {
+					gateDef[v] = as.Rhs[0]
+				}
+			}
+		}
+		return true
+	})
 	for _, ff := range append([]*core.Func{f}, f.Lits()...) {
 		g := c.G(ff)
 		for _, cb := range g.CondBlocks() {
 			mentions := false
+			var viaGate []ast.Expr
 			ast.Inspect(cb.Cond, func(m ast.Node) bool {
 				if se, ok := m.(*ast.SelectorExpr); ok && core.FieldVar(info, se) == fTools {
 					mentions = true
+				}
+				if id, ok := m.(*ast.Ident); ok {
+					if def, isGate := gateDef[info.Uses[id]]; isGate {
+						mentions = true
+						viaGate = append(viaGate, def)
+					}
 				}
 				return true
 			})
@@ -3027,6 +3162,9 @@ func extra5C17(c *Ctx) {
 				}
 			}
 			walk(cb.Cond)
+			for _, def := range viaGate {
+				walk(def)
+			}
 			n++
 			c.Check(rule, ff.Key()+" tool gate#"+itoa(n), c.Pos(cb.Cond), ok, "`"+core.ExprString(cb.Cond)+"` does not test len(req.Tools) against 0: the gates of the streamed and the non-streamed path can disagree")
 		}
